@@ -423,6 +423,15 @@ def run_check(prop_id, tier, workers=16, confirm=True, write_evidence=True):
                 a = fresh_replay(prop_id, replays[k], history=True)
                 bb = fresh_replay(prop_id, replays[k], history=True)
                 ok = a[0] == 1 and bb[0] == 1 and a[1] == bb[1] and a[1] is not None
+            if not ok and a[0] == 1 and bb[0] == 1 and a[1] and bb[1]:
+                # both fresh runs violate, but the messages differ: if both violate the SAME clause under the SAME witness key, the code
+                # under test itself is not deterministic on this case (e.g. it reads uninitialised memory) - that is a reproduced violation
+                ka = {(x[0], x[1]) for x in json.loads(a[1])}
+                kb = {(x[0], x[1]) for x in json.loads(bb[1])}
+                if ka == kb and any(key == k for _, key in ka):
+                    ok = True
+                    by_key[k]['detail'] = '[reproduced in two fresh interpreters with varying magnitude: the code under test is not deterministic here] ' + by_key[k]['detail']
+                    replays[k] = write_replay(prop_id, by_key[k], seed)
                 if ok:
                     by_key[k]['needs_history'] = True
                     by_key[k]['detail'] = '[shows only after earlier cases were executed in the same process: state kept between calls] ' + by_key[k]['detail']
